@@ -90,6 +90,40 @@ func collectResults(res *bs.Results, limit time.Duration) ([]map[string]any, err
 	}
 }
 
+// runQueries executes the queries one after another on eng (whose stores are
+// wrapped by tr) and records rows, terminal error, stats and the call log.
+func runQueries(eng *bs.BloomSearchEngine, tr *Trace, queries []QuerySpec) ([]QueryRun, *Violation) {
+	var runs []QueryRun
+	for _, qs := range queries {
+		tr.ResetLog()
+		run := QueryRun{Spec: qs}
+		res, qerr := eng.Query(context.Background(), qs.Query())
+		if qerr != nil {
+			run.QueryErr = qerr
+			runs = append(runs, run)
+			continue
+		}
+		rows, rerr, ok := collectResults(res, 120*time.Second)
+		if !ok {
+			return nil, violf("query did not finish within 120s on healthy in-memory stores: %s", shortJSON(qs, 600))
+		}
+		res.Close()
+		run.Rows, run.Err = rows, rerr
+		run.Stats = res.Stats()
+		run.Calls = tr.Calls()
+		run.Handles = tr.Handles()
+		for _, r := range rows {
+			id, ok := rowID(r)
+			if !ok {
+				id = -1
+			}
+			run.IDs = append(run.IDs, id)
+		}
+		runs = append(runs, run)
+	}
+	return runs, nil
+}
+
 // execSearchCase runs the history and the queries. A non-nil Violation means
 // the history or a query could not be executed on healthy stores.
 func execSearchCase(c SearchCase) (*SearchRun, *Violation) {
@@ -135,34 +169,12 @@ func execSearchCase(c SearchCase) (*SearchRun, *Violation) {
 		w.Close()
 		return nil, violf("engine construction failed: %v", err)
 	}
-	for _, qs := range c.Queries {
-		tr.ResetLog()
-		run := QueryRun{Spec: qs}
-		res, qerr := eng.Query(context.Background(), qs.Query())
-		if qerr != nil {
-			run.QueryErr = qerr
-			sr.Runs = append(sr.Runs, run)
-			continue
-		}
-		rows, rerr, ok := collectResults(res, 120*time.Second)
-		if !ok {
-			w.Close()
-			return nil, violf("query did not finish within 120s on healthy in-memory stores: %s", shortJSON(qs, 600))
-		}
-		res.Close()
-		run.Rows, run.Err = rows, rerr
-		run.Stats = res.Stats()
-		run.Calls = tr.Calls()
-		run.Handles = tr.Handles()
-		for _, r := range rows {
-			id, ok := rowID(r)
-			if !ok {
-				id = -1
-			}
-			run.IDs = append(run.IDs, id)
-		}
-		sr.Runs = append(sr.Runs, run)
+	runs, v := runQueries(eng, tr, c.Queries)
+	if v != nil {
+		w.Close()
+		return nil, v
 	}
+	sr.Runs = runs
 	after, err := ReadWorld(w.Data, w.Meta)
 	if err != nil {
 		w.Close()
